@@ -1056,6 +1056,72 @@ def rule_r12(repo, run):
               "descriptor", wf.loc(sf))
 
 
+def rule_r13(repo, run):
+    R = run.rule("C04.R13", "VALUE: a parameter the C wrapper takes by value is a VALUE dummy - the renderer emits VALUE exactly "
+                            "when the value attribute is set, and declarations generated after attribute defaulting set it "
+                            "themselves")
+    dm = repo.module("declast")
+    bc = dm.func("Declaration.bind_c")
+    apps = [c for c in ast.walk(bc) if isinstance(c, ast.Call) and isinstance(c.func, ast.Attribute) and c.func.attr == "append"
+            and c.args and pyflow.const_str(c.args[0]) == "value"]
+    if len(apps) != 1:
+        raise AnalysisError("C04.R13: `t.append(\"value\")` of Declaration.bind_c not found")
+    atoms = pyflow.path_atoms(apps[0], stop=bc, seg=dm.seg)
+    run.check(R, "declast.Declaration.bind_c:value", atoms == {("attrs['value']", True)},
+              "VALUE is emitted under %s: it must follow the value attribute alone (C takes `void *p`, `T x` and a "
+              "+value pointer by value; a further condition makes Fortran pass the address of the pointer)" % sorted(atoms),
+              dm.loc(apps[0]))
+    # declarations added by GenFunctions are created after VerifyAttrs defaulted `value`: by-value parameters say so
+    gm = repo.module("generate")
+    n = 0
+    for q, fn in sorted(gm.functions().items()):
+        if not q.startswith("GenFunctions."):
+            continue
+        for c in ast.walk(fn):
+            if not (isinstance(c, ast.Call) and isinstance(c.func, ast.Attribute) and c.func.attr == "add_function"):
+                continue
+            kw = dict((k.arg, k.value) for k in c.keywords if k.arg)
+            if not c.args:
+                continue
+            # the declaration text: parameters written by gen_arg_as_c(name="<param>")
+            names = set()
+            for a in ast.walk(fn):
+                if isinstance(a, ast.Call) and isinstance(a.func, ast.Attribute) and a.func.attr == "gen_arg_as_c":
+                    for k in a.keywords:
+                        if k.arg == "name" and pyflow.const_str(k.value):
+                            names.add(pyflow.const_str(k.value))
+            decl = c.args[0]
+            dtext = None
+            if isinstance(decl, ast.Name):
+                for a in ast.walk(fn):
+                    if isinstance(a, ast.Assign) and pyflow.is_name(a.targets[0], decl.id) and a.lineno < c.lineno:
+                        dtext = a
+            if dtext is None:
+                continue
+            fmtcall = dtext.value
+            if not (isinstance(fmtcall, ast.Call) and isinstance(fmtcall.func, ast.Attribute) and fmtcall.func.attr == "format"
+                    and isinstance(fmtcall.func.value, ast.Constant)):
+                continue
+            template = fmtcall.func.value.value
+            mparams = re.search(r"\((.*)\)", template)
+            if not mparams or "{}" not in mparams.group(1):
+                continue          # no generated parameter
+            n += 1
+            av = kw.get("attrs")
+            if isinstance(av, ast.Name):
+                avname = av.id
+                for a in ast.walk(fn):
+                    if isinstance(a, ast.Assign) and pyflow.is_name(a.targets[0], avname) and a.lineno < c.lineno:
+                        av = a.value
+            text = str(gm.seg(av)) if av is not None else ""
+            ok = av is not None and re.search(r"value\s*=\s*True|'value':\s*True", text) is not None
+            run.check(R, "generate.%s:add_function(%s):value" % (q, re.sub(r"\s+", "", template)[:30]), ok,
+                      "the generated function takes its argument by value (declaration `%s` from gen_arg_as_c) but its attrs %s "
+                      "do not set value=True: VerifyAttrs has already run, so the Fortran interface passes the argument by "
+                      "reference while the C wrapper takes it by value" % (template, text[:60] or "are missing"), gm.loc(c))
+    run.floor(R, "generated functions with a by-value parameter", n, 1)
+
+
 def run(repo, run, tier):
     tables.check_model_assumptions(repo)
     table = tables.StatementTable(repo, "statements", "fc_statements")
@@ -1073,6 +1139,7 @@ def run(repo, run, tier):
     rule_r10(repo, run, table)
     rule_r11(repo, run)
     rule_r12(repo, run)
+    rule_r13(repo, run)
     run.assumptions.extend([
         "LP64 / ISO_C_BINDING interoperability table in sa/interop.py",
         "table semantics model (base/mixin/language selection) mirrors statements.update_stmt_tree; "
